@@ -125,6 +125,10 @@ def gen_rich(ctx, i):
         for part in p["parts"]:
             kinds = ["instantiate", "exec", "query", "sudo"] if part["id"] == "c" else ["exec", "query", "sudo"]
             part["msg_attrs"] = [(rng.choice(kinds), f"derive(Mark{j})") for j in range(rng.choice([1, 2, 3]))]
+            if i % 6 == 5:
+                # two attributes for one kind with another kind's attribute written between them
+                k1, k2 = rng.sample(kinds, 2)
+                part["msg_attrs"] = [(k1, "derive(Mark0)"), (k2, "derive(Mark1)"), (k1, "derive(Mark2)")]
     return p
 
 
